@@ -133,8 +133,9 @@ Definition addr := option str.
 Record rcfg := {
   c_etype : ctx;                                      (* Entity.entity_type *)
   c_endpoints : list (ctx * list (str * list epspec));(* config.getattr("endpoints", ctx) per context that has one *)
-  c_want_signed : bool;        (* truthiness of config.getattr("want_authn_requests_signed", "idp") *)
-  c_only_valid_cert : bool;    (* truthiness of config.getattr("want_authn_requests_only_with_valid_cert", "idp") *)
+  c_want_signed : bool;        (* truthiness of config.getattr("want_authn_requests_signed", entity_type) — the option in the
+                                  section of the entity's own type (proposed_fix/C10-2; before it: always the "idp" section) *)
+  c_only_valid_cert : bool;    (* truthiness of config.getattr("want_authn_requests_only_with_valid_cert", entity_type) *)
   c_slack : Z;                 (* accepted_time_diff, 0 when unset *)
   c_now : Z;
   c_md_present : bool; c_md : mdstore; c_only_md : bool;  (* sec.metadata, only_use_keys_in_metadata *)
@@ -358,7 +359,29 @@ Definition parse_request (pre fixd : bool) (c : rcfg) (k : kind) (b : binding) (
       end
   end.
 
+(* ---- where the two want_* options are read ----
+   [secs]: per configured section of the entity's configuration, the truthiness of
+   (want_authn_requests_signed, want_authn_requests_only_with_valid_cert).  The options are legal in the
+   "idp" and in the "aa" section (config.py AA_IDP_ARGS); an SP has neither.
+   [own] = _parse_request reads them in the section of the entity's own type (proposed_fix/C10-2);
+   before that repair it always read the "idp" section. *)
+Definition opt_sections := list (ctx * (bool * bool)).
+Fixpoint lookup_opts (x : ctx) (l : opt_sections) : bool * bool :=
+  match l with
+  | [] => (false, false)                                   (* getattr(..., None) *)
+  | (y, v) :: r => if ctx_eqb x y then v else lookup_opts x r
+  end.
+Definition read_options (own : bool) (etype : ctx) (secs : opt_sections) : bool * bool :=
+  lookup_opts (if own then etype else CIdp) secs.
+
+Definition mk_cfg (own : bool) (etype : ctx) (eps : list (ctx * list (str * list epspec))) (secs : opt_sections)
+           (slack now : Z) (mdp : bool) (md : mdstore) (only_md : bool) (vc : option (list N)) (dup : bool) : rcfg :=
+  Build_rcfg etype eps (fst (read_options own etype secs)) (snd (read_options own etype secs))
+             slack now mdp md only_md vc dup.
+
 (* the code state the correspondence runs against *)
+Definition OPTIONS_OWN_CONTEXT : bool := true.  (* proposed_fix/C10-2 *)
+Definition mk_cfg_now := mk_cfg OPTIONS_OWN_CONTEXT.
 Definition PRECHECK_IN_FORCE : bool := false.   (* true once the C01 repair (_enveloped_signature_ok) is in the library *)
 Definition F16_FIXED : bool := true.            (* proposed_fix/C10-1 *)
 Definition parse_request_now := parse_request PRECHECK_IN_FORCE F16_FIXED.
